@@ -1481,4 +1481,16 @@ theorem marshal_ne_panic (v : VLA) : marshal v ≠ .panic := by
     obtain ⟨b, hb⟩ := marshal_ok_of_valid v (by omega) (by omega) hp
     rw [hb]; simp
 
+/-! ### small LEB128 values, for evaluating `encode` on concrete allocations -/
+
+theorem writeLeb_one (n : Nat) (h : n < 128) : writeLeb n = [n.toUInt8] := by
+  rw [writeLeb]; simp [h]
+
+theorem writeLeb_two (n : Nat) (h1 : 128 ≤ n) (h2 : n < 16384) :
+    writeLeb n = [(n % 128 + 128).toUInt8, (n / 128).toUInt8] := by
+  rw [writeLeb]
+  have : ¬ n < 128 := by omega
+  simp only [this, dite_false]
+  rw [writeLeb_one _ (by omega)]
+
 end Rtp.Model.Vla
